@@ -889,12 +889,12 @@ pub fn run(args: &Args) {
         run_case(&mut sink, &csvs, &texts, &exacts, true, false);
     }
     // hand-made double arrays with wide offsets straight into the reader
-    for _ in 0..args.n(150, 3000) {
+    for _ in 0..args.n(120, 3000) {
         if let Some((units, keys, texts, nwide)) = gen_raw_case(&mut rng) {
             run_raw_case(&mut sink, &units, &keys, &texts, nwide, false);
         }
     }
-    let n = args.n(400, 6000);
+    let n = args.n(320, 6000);
     for _ in 0..n {
         let layers = match rng.below(20) {
             0..=7 => 1,
